@@ -344,7 +344,8 @@ func (cache *dirCache) markDir(path string, size uint64) {
 	cache.mutex.Lock()
 	defer cache.mutex.Unlock()
 	cache.added[path] = size
-	cache.added[path+"="] = size
+	// Also the temporary name that Store writes to; N.B. any suffix (.tar.gz) comes after the extra =
+	cache.added[strings.TrimSuffix(path, cache.Suffix)+"="+cache.Suffix] = size
 }
 
 // isMarked returns true if a directory has previously been passed to markDir.
@@ -464,8 +465,12 @@ func (cache *dirCache) clean(highWaterMark, lowWaterMark uint64) uint64 {
 		// Try to rename the directory first so we don't delete bits while someone might access them.
 		newPath := entry.Path + "="
 		if err := os.Rename(entry.Path, newPath); err != nil {
-			log.Errorf("Couldn't rename %s: %s", entry.Path, err)
-			continue
+			// Something left over from an interrupted store or clean may be in the way;
+			// get rid of that (unless it's one of ours that's still being written) and try again.
+			if _, marked := cache.isMarked(newPath); marked || fs.RemoveAll(newPath) != nil || os.Rename(entry.Path, newPath) != nil {
+				log.Errorf("Couldn't rename %s: %s", entry.Path, err)
+				continue
+			}
 		}
 		verifhook.Point("dircache.clean.renamed")
 		if err := fs.RemoveAll(newPath); err != nil {
